@@ -221,6 +221,10 @@ func TestE2StateSnapCrash(t *testing.T) {
 				rep.Add(Finding{Kind: "oracle", Property: "C13", Oracle: "term/vote storage after this crash returns neither the last completed value nor the value being written",
 					Case: caseLine, Impl: fmt.Sprintf("term=%d vote=%q err=%v", gt, gv, serr), Detail: fmt.Sprintf("last completed=%v in flight=%v | image: %s", cur, inflightTV, describeShort(im)),
 					Signature: map[string]string{"oracle": "recover-state"}})
+				if inflight < 0 {
+					rep.Add(Finding{Kind: "oracle", Property: "C19", Oracle: "the term/vote pair read back from storage (no operation in flight) is not what was written",
+						Case: caseLine, Impl: fmt.Sprintf("term=%d vote=%q err=%v", gt, gv, serr), Detail: fmt.Sprintf("written=%v", cur), Signature: map[string]string{"oracle": "readback-state"}})
+				}
 			}
 			// snapshots
 			found, gs, nerr := readSnap(dir)
@@ -254,6 +258,10 @@ func TestE2StateSnapCrash(t *testing.T) {
 				rep.Add(Finding{Kind: "oracle", Property: "C13", Oracle: "snapshot storage after this crash does not return the most recently closed snapshot complete with matching metadata",
 					Case: caseLine, Impl: fmt.Sprintf("found=%v index=%d term=%d len=%d err=%v", found, gs.index, gs.term, len(gs.data), nerr),
 					Detail: "image: " + describeShort(im), Signature: sig})
+				if inflight < 0 && sig["pattern"] == "" {
+					rep.Add(Finding{Kind: "oracle", Property: "C19", Oracle: "snapshot content/metadata read back from storage (no operation in flight) is not what was written",
+						Case: caseLine, Impl: fmt.Sprintf("found=%v index=%d term=%d len=%d err=%v", found, gs.index, gs.term, len(gs.data), nerr), Signature: map[string]string{"oracle": "readback-snapshot"}})
+				}
 			}
 			// a whole node over the image, first attempt
 			if ci%4 == 0 || inflight >= 0 {
